@@ -1,0 +1,31 @@
+//go:build verif
+
+package auditlog
+
+// Specification helpers for the contracts in zz_contracts_verif.go (see /verif/DESIGN.md).
+
+// specLog is the entry's log details, nil when the entry is not a LOG entry.
+func specLog(e *Entry) *LogDetails {
+	d, _ := e.Details.(*LogDetails)
+	return d
+}
+
+func specIsLog(e *Entry) bool {
+	_, ok := e.Details.(*LogDetails)
+	return ok
+}
+
+// specSinceVersion is the entry format version from which a field of LogDetails exists and therefore must be part of
+// what the entry hash covers. A field that is not listed (one added later) must be covered by entries of the current
+// version.
+func specSinceVersion(field string) uint16 {
+	switch field {
+	case "Operation", "Phase", "Resource.Bucket", "Resource.Key", "Resource.UploadID", "Resource.PartNumber", "Actor.CredentialID", "Outcome.Error":
+		return 1
+	case "Actor.AuthType", "Request.RequestID", "Request.TraceID", "Request.ClientIP", "Outcome.StatusCode", "Outcome.Outcome", "Outcome.ErrorCode", "Outcome.DurationMs":
+		return 2
+	case "Resource.SourceBucket", "Resource.SourceKey":
+		return 3 // the fields exist since v3; that v3 entries do not hash them is recorded as a known finding
+	}
+	return CurrentVersion
+}
